@@ -87,6 +87,37 @@ def make(zone, u, prov):
     return pendulum.parse("%04d-%02d-%02dT%02d:%02d:%02d.%06d" % T.fields(r), tz=zone)
 
 
+def week_walk_model(x_fold, f, zone, op, ws):
+    """The value K-C12-1 pins for start_of/end_of('week'): the documented composition previous()/next() = start_of('day') then
+    add(days=k), then start_of/end_of('day'), where set()-based steps resolve a skipped/repeated wall time with the fold of the
+    value they are applied to and add(days=..) resolves with fold=1 (create()'s default); a skipped wall time yields fold 0.
+    Returns the instant, or None when a step meets a compound transition."""
+    def resolve(w, fold):
+        kind, i = T.expected_construct(w, zone, fold)
+        return None if i is None else (i, 0 if kind == "skipped" else fold)
+
+    def dow(fields):
+        return D.date(*fields[:3]).weekday()
+
+    def day_edge(fields, fold):
+        return resolve(T.naive_us(D.datetime(*fields[:3])) + (0 if op == "start_of" else DAY - 1), fold)
+
+    target = ws if op == "start_of" else (ws + 6) % 7
+    if dow(f) == target:
+        r = day_edge(f, x_fold)
+        return r and r[0]
+    r0 = resolve(T.naive_us(D.datetime(*f[:3])), x_fold)
+    if r0 is None:
+        return None
+    f0 = T.fields(T.render(r0[0], zone))
+    k = -((dow(f0) - target - 1) % 7 + 1) if op == "start_of" else (target - dow(f0) - 1) % 7 + 1
+    r1 = resolve(T.naive_us(D.datetime(*f0)) + k * DAY, 1)
+    if r1 is None:
+        return None
+    r2 = day_edge(T.fields(T.render(r1[0], zone)), r1[1])
+    return r2 and r2[0]
+
+
 def check_one(x, u, zone, unit, op, ws):
     """returns label"""
     loc = T.render(u, zone)
@@ -121,7 +152,12 @@ def check_one(x, u, zone, unit, op, ws):
                 return "compound-boundary"
             if ru == good:
                 return "week:fragile-walk:correct"
-            req(abs(ru - good) <= 8 * DAY + 2 * 3600 * US, f"{tag}: result is more than a week away from the week boundary", got=r.isoformat(), expected=T.render(good, zone).isoformat())
+            walk = week_walk_model(x.fold, f, zone, op, ws)
+            if walk is None:
+                return "compound-boundary"
+            req(ru == walk, f"{tag}: result is neither the week boundary nor the value the known fold mechanism (K-C12-1 acting on the intermediate "
+                "start_of('day') / add(days) / end_of('day') steps) produces", got=r.isoformat(), expected=T.render(good, zone).isoformat(),
+                known_mechanism_gives=T.render(walk, zone).isoformat(), fold=x.fold)
             raise Known("K-C12-1", f"{tag}: a midnight on the walk to the week boundary is skipped/repeated and was resolved by an intermediate value's fold")
     if kind == "unique":
         exp = T.render(pre[0], zone)
